@@ -187,3 +187,45 @@ package go_clipper2
 //@ func NewClipper64
 //@   props C12
 //@   ensures [wired] result != nil && result.clipperBase != nil && idle(result.clipperBase)
+
+// ---------------------------------------------------------------------------------
+// C16: SimplifyPath
+// ---------------------------------------------------------------------------------
+
+//@ spec perpNumR(pt, l1, l2 Point64) float64 = toReal(pt.X-l1.X)*toReal(l2.Y-l1.Y) - toReal(l2.X-l1.X)*toReal(pt.Y-l1.Y)
+//@ spec perpDenR(l1, l2 Point64) float64 = toReal(l2.X-l1.X)*toReal(l2.X-l1.X) + toReal(l2.Y-l1.Y)*toReal(l2.Y-l1.Y)
+
+//@ func PerpendicDistFromLineSqr64
+//@   props C16 C03
+//@   pure
+//@   requires dom(pt,29) && dom(line1,29) && dom(line2,29)
+//@   ensures [degenerate] line1 == line2 ==> result == 0
+//@   ensures [value] line1 != line2 ==> result * perpDenR(line1, line2) == perpNumR(pt, line1, line2) * perpNumR(pt, line1, line2)
+//@   ensures [nonneg] result >= 0
+
+//@ lemma perpTranslate props C16 C13: forallInt(tx, forallInt(ty, forallInt(px, forallInt(py, forallInt(ax, forallInt(ay, forallInt(bx, forallInt(by, perpNumR(Point64{px+tx, py+ty}, Point64{ax+tx, ay+ty}, Point64{bx+tx, by+ty}) == perpNumR(Point64{px, py}, Point64{ax, ay}, Point64{bx, by}) && perpDenR(Point64{ax+tx, ay+ty}, Point64{bx+tx, by+ty}) == perpDenR(Point64{ax, ay}, Point64{bx, by})))))))))
+//@ lemma perpScale props C16 C13: forallInt(s, forallInt(px, forallInt(py, forallInt(ax, forallInt(ay, forallInt(bx, forallInt(by, perpNumR(Point64{s*px, s*py}, Point64{s*ax, s*ay}, Point64{s*bx, s*by}) == toReal(s)*toReal(s)*perpNumR(Point64{px, py}, Point64{ax, ay}, Point64{bx, by}) && perpDenR(Point64{s*ax, s*ay}, Point64{s*bx, s*by}) == toReal(s)*toReal(s)*perpDenR(Point64{ax, ay}, Point64{bx, by}))))))))
+
+//@ func getNext
+//@   props C16 C03
+//@   requires 0 <= current && current <= high && len(flags) == high+1
+//@   requires exists(k, 0, high+1, !flags[k])
+//@   loop 0 invariant old(current)+1 <= current && current <= high+1 && forall(k, old(current)+1, current, flags[k])
+//@   loop 0 decreases high + 1 - current
+//@   loop 1 invariant 0 <= current && current <= old(current) && forall(k, 0, current, flags[k]) && forall(k, old(current)+1, high+1, flags[k])
+//@   loop 1 decreases high - current
+//@   ensures [range] 0 <= result && result <= high && !flags[result]
+//@   ensures [next-fwd] result > current ==> forall(k, current+1, result, flags[k])
+//@   ensures [next-wrap] result <= current ==> (forall(k, current+1, high+1, flags[k]) && forall(k, 0, result, flags[k]))
+
+//@ func getPrior
+//@   props C16 C03
+//@   requires 0 <= current && current <= high && len(flags) == high+1
+//@   requires exists(k, 0, high+1, !flags[k])
+//@   loop 0 invariant 0 <= current && current <= high && (old(current) > 0 ==> (current < old(current) && forall(k, current+1, old(current), flags[k]))) && (old(current) == 0 ==> forall(k, current+1, high+1, flags[k]))
+//@   loop 0 decreases current
+//@   loop 1 invariant 0 <= current && current <= high && forall(k, current+1, high+1, flags[k]) && forall(k, 0, old(current), flags[k]) && current >= old(current)
+//@   loop 1 decreases current
+//@   ensures [range] 0 <= result && result <= high && !flags[result]
+//@   ensures [prior-back] result < current ==> forall(k, result+1, current, flags[k])
+//@   ensures [prior-wrap] result >= current ==> (forall(k, 0, current, flags[k]) && forall(k, result+1, high+1, flags[k]))
